@@ -60,7 +60,7 @@ struct executor {
 
 // ---------------------------------------------------------------- timers (virtual time, milliseconds)
 struct timer_rec {
-  int id = -1; bool armed = false; bool max_wait = false; int64_t dur_ms = 0; int64_t deadline_ms = 0;
+  int id = -1; bool armed = false; bool max_wait = false; int64_t dur_ms = 0; int64_t dur_ns = 0; int64_t deadline_ms = 0;
   int arm_count = 0; int cancel_count = 0;
   asio::any_completion_handler<void(error_code)> h;
 };
